@@ -1,1 +1,26 @@
-From WT Require Import Base.Wrap.
+(** * C18 — view and view-raw show exactly what is stored. *)
+From WT Require Import Base.Wrap Base.ListX Model.Time Model.Ring Model.Update Model.Handle Model.Cmd Proofs.CmdProofs.
+
+(** view prints one record per slot of the fetched series, the k-th carrying instant from + k*step
+    and the k-th fetched value *)
+Theorem C18_view_one_record_per_slot s d k : (k < length (s_vals s))%nat ->
+  length (series_points s) = length (s_vals s) /\
+  nth k (series_points s) d = mkPoint (ts_add (s_from s) (i32 (Z.of_nat k * s_step s))) (nth k (s_vals s) (p_val d)).
+Proof. intros H. split; [apply series_points_length|apply series_points_nth; exact H]. Qed.
+Print Assumptions C18_view_one_record_per_slot.
+
+(** every record of archive [a] comes from archive [a]'s own list (archive-then-time order:
+    the records are the concatenation of the per-archive lists) *)
+Theorem C18_records_by_archive pl i a t v :
+  In (RPoint a t v) (points_records_from i pl) ->
+  exists ps, nth_error pl (Z.to_nat (a - i)) = Some ps /\ i <= a /\ In (mkPoint t v) ps.
+Proof. exact (points_records_in pl i a t v). Qed.
+Print Assumptions C18_records_by_archive.
+
+(** view-raw shows a physical slot iff it lies in the requested range (from exclusive unless 0,
+    until inclusive, a zero-length range reaching one step further) *)
+Theorem C18_view_raw_filter step from until ps p :
+  In p (filter_raw step from until ps) <->
+  In p ps /\ (from = 0 \/ from < p_time p) /\ p_time p <= (if until =? from then ts_add until step else until).
+Proof. exact (filter_raw_in step from until ps p). Qed.
+Print Assumptions C18_view_raw_filter.
